@@ -4,6 +4,7 @@ import (
 	"strings"
 	"testing"
 
+	"github.com/cockroachdb/pebble"
 	"github.com/cockroachdb/pebble/verifharness/evid"
 	"pgregory.net/rapid"
 )
@@ -175,5 +176,195 @@ func TestC09(t *testing.T) {
 		250, 1500,
 		func(res Result, ls []string) bool {
 			return res.C["masked-points-hidden"] > 0 && hasLabel(ls, "flushed")
+		}, nil)
+}
+
+func crashGen(quickStride int) func(t *rapid.T, o OptPlan) *CrashPlan {
+	return func(t *rapid.T, o OptPlan) *CrashPlan {
+		stride := rapid.SampledFrom([]int{quickStride, quickStride * 2, quickStride / 2}).Draw(t, "cstride")
+		if evid.GetEnv().Tier == "thorough" {
+			stride = rapid.SampledFrom([]int{1, 2, 3, quickStride}).Draw(t, "cstrideT")
+		}
+		if stride < 1 {
+			stride = 1
+		}
+		cp := &CrashPlan{Stride: stride, Offset: rapid.IntRange(0, stride-1).Draw(t, "coff"),
+			Hot: rapid.SampledFrom([]int{1, 2, 3}).Draw(t, "chot"), MaxImages: 250}
+		cp.Surv = []int{0, 1, rapid.IntRange(2, 1000).Draw(t, "csalt")}
+		if rapid.Bool().Draw(t, "csalt2on") {
+			cp.Surv = append(cp.Surv, rapid.IntRange(2, 1000).Draw(t, "csalt2"))
+		}
+		return cp
+	}
+}
+
+var crashOpt = func(t *rapid.T, o *OptPlan) {
+	o.MemTableSize = rapid.SampledFrom([]int{4 << 10, 8 << 10, 32 << 10}).Draw(t, "cmem")
+	o.MaxManifest = rapid.SampledFrom([]int64{1, 200, 4096}).Draw(t, "cmaxman")
+}
+
+var profCrashDurable = Profile{
+	Name: "crash-durable", MinSteps: 8, MaxSteps: 35, DurableIngest: true, SyncPct: 45,
+	W: map[string]int{"write": 40, "batch": 14, "bigbatch": 2, "flush": 6, "compact": 3, "wait": 3, "ingest": 4, "ingestexcise": 2, "excise": 1, "restart": 2},
+	OpW: opWDefault, CrashGen: crashGen(9),
+	Opt: func(t *rapid.T, o *OptPlan) { crashOpt(t, o); o.DisableWAL = false },
+}
+
+func TestC10(t *testing.T) {
+	InBubble = true
+	p := profCrashDurable
+	evid.Run(t, evid.Spec[Plan]{
+		ID: "C10", Level: "fault_enumeration", Bubble: true,
+		Rule: "rapid draws DB options (small memtables: WAL rotation/recycling; tiny MaxManifestFileSize: MANIFEST rotation; WALDir on/off; format versions on both sides of the WAL-sync chunk format) and a history with a drawn Sync flag per commit (incl. ApplyNoSyncWait+SyncWait), Flush, Compact, Ingest/IngestAndExcise/Excise (issued only when nothing is pending durability), restarts; a crash image is taken before every Stride-th mutating file-system operation and before every WAL-control/MANIFEST/marker/OPTIONS/rename/remove/dir-sync operation, for survival subsets {none, all, 1-2 pseudo-random subsets} of the unsynced 4KiB blocks and directory entries (deterministic MemFS crash clone). Every image must reopen and its full state must equal model[k] for some k in [durable, latest(+in-flight)]. " +
+			"non-trivial image = taken after a durable acknowledgement (durable version > 0) while un-durable data or several candidate versions existed; a case is non-trivial if it has such an image after a WAL rotation or flush; distinct = hash of plan JSON",
+		Assumptions: append([]string{"crash model = vfs.MemFS's: synced data survives; each unsynced 4KiB block and each unsynced directory entry survives independently; unsynced removals may be undone. Not a model of every real file system."}, commonAssumptions...),
+		Gen:         func(t *rapid.T) Plan { return Generate(t, p) },
+		Exec: func(pl Plan) (evid.Outcome, error) {
+			res, err := RunPlan(pl, nil)
+			out := res.Outcome()
+			out.NonTrivial = res.C["crash-images-after-durable-ack"] > 0 && res.C["crash-images-ambiguous"] > 0 && hasLabel(out.Labels, "flushed")
+			return out, err
+		},
+		Quick: 70, Thorough: 400,
+		Sample: func(p Plan) any { return p.Summary() },
+	})
+}
+
+// crashCheck registers a crash-engine check.
+func crashCheck(t *testing.T, id string, prof Profile, rule string, quick, thorough int, nt func(res Result, labels []string) bool) {
+	InBubble = true
+	evid.Run(t, evid.Spec[Plan]{
+		ID: id, Level: "fault_enumeration", Bubble: true, Rule: rule,
+		Assumptions: append([]string{"crash model = vfs.MemFS's: synced data survives; each unsynced 4KiB block and each unsynced directory entry survives independently; unsynced removals may be undone. Not a model of every real file system.",
+			"crash points are file-system operation boundaries (images are taken before the selected mutating operation); survival subsets: none, all, and pseudo-random subsets"}, commonAssumptions...),
+		Gen: func(t *rapid.T) Plan { return Generate(t, prof) },
+		Exec: func(pl Plan) (evid.Outcome, error) {
+			res, err := RunPlan(pl, nil)
+			out := res.Outcome()
+			out.NonTrivial = nt(res, out.Labels)
+			return out, err
+		},
+		Quick: quick, Thorough: thorough,
+		Sample: func(p Plan) any { return p.Summary() },
+	})
+}
+
+var profCrashPrefix = Profile{
+	Name: "crash-prefix", MinSteps: 10, MaxSteps: 40, DurableIngest: true, SyncPct: 12,
+	W: map[string]int{"write": 30, "batch": 26, "bigbatch": 2, "flush": 4, "compact": 2, "wait": 3, "ingest": 2, "restart": 1, "crashrestart": 5},
+	OpW: map[string]int{"set": 22, "del": 12, "merge": 16, "delrange": 10, "sdel": 8, "delsized": 4, "rkset": 6, "rkunset": 3, "rkdel": 2, "logdata": 1},
+	CrashGen: crashGen(11),
+	Opt: func(t *rapid.T, o *OptPlan) { crashOpt(t, o); o.DisableWAL = false },
+}
+
+func TestC11(t *testing.T) {
+	crashCheck(t, "C11", profCrashPrefix,
+		"as C10 but mostly NoSync commits, multi-op batches (atomicity), delete/range-delete/single-delete/merge heavy histories (resurrection and double application are observable: a replayed Merge appends twice) and 0-3 crash-and-continue cycles per case: at a drawn point a crash image with a drawn survival subset replaces the store, the recovered state must equal model[k] for some k in [durable, latest], the model is reset to that k and the history continues (second-generation images are checked the same way, including images taken during recovery). "+
+			"non-trivial = at least two candidate states differed for some image (ambiguous window) and a crash-and-continue happened or an image recovered a k strictly inside the window; distinct = hash of plan JSON",
+		70, 400,
+		func(res Result, ls []string) bool {
+			return res.C["crash-images-ambiguous"] > 0 && (res.C["crash-restarts"] > 0 || res.C["crash-recovered-strictly-inside"] > 0)
+		})
+}
+
+var profCrashFlush = Profile{
+	Name: "crash-flush", MinSteps: 8, MaxSteps: 30, DurableIngest: true, SyncPct: 1,
+	W: map[string]int{"write": 40, "batch": 14, "flush": 12, "compact": 3, "wait": 4, "restart": 6, "ingest": 2},
+	OpW: opWDefault, CrashGen: crashGen(9),
+	Opt: func(t *rapid.T, o *OptPlan) {
+		crashOpt(t, o)
+		o.DisableWAL = rapid.Bool().Draw(t, "c12nowal")
+	},
+}
+
+func TestC12(t *testing.T) {
+	crashCheck(t, "C12", profCrashFlush,
+		"NoSync commits and (half of the cases) DisableWAL configurations, then Flush or Close+reopen; crash images are taken at every selected FS operation after the call returned (until the end of the plan, including while later compactions delete the flushed inputs); survival 'none' is always among the subsets; every image must recover a state >= the version at the Flush/Close (durable point). "+
+			"non-trivial = an image was taken after a Flush/Close made un-synced (NoSync or WAL-less) data durable; distinct = hash of plan JSON",
+		70, 400,
+		func(res Result, ls []string) bool {
+			return res.C["crash-images-after-durable-ack"] > 0 && hasLabel(ls, "flushed")
+		})
+}
+
+var profORGD = Profile{
+	Name: "orgd", MinSteps: 8, MaxSteps: 35, DurableIngest: true, SyncPct: 30,
+	W: map[string]int{"write": 40, "batch": 12, "flush": 8, "compact": 3, "wait": 3, "ingest": 2, "restart": 1, "orgd": 14},
+	OpW: opWDefault,
+	CrashGen: func(t *rapid.T, o OptPlan) *CrashPlan { return &CrashPlan{Stride: 0, Surv: []int{0}, MaxImages: 1} },
+	Opt:      crashOpt,
+}
+
+func TestC13(t *testing.T) {
+	crashCheck(t, "C13", profORGD,
+		"mixed Sync/NoSync histories with flushes (ingests only when the memtable is flushed); at drawn quiescent points an iterator is opened with OnlyReadGuaranteedDurable and, at that moment, a crash image keeping only synced data is taken; the iterator content must equal model[k1] for some k1 and the image must recover model[k2] with k1 <= k2. "+
+			"non-trivial = 0 < k1 < latest (the memtable held newer data that had to be excluded and something durable existed); distinct = hash of plan JSON",
+		150, 800,
+		func(res Result, ls []string) bool { return res.C["orgd-reads-strict-prefix"] > 0 })
+}
+
+var profManifest = Profile{
+	Name: "manifest", MinSteps: 8, MaxSteps: 26, DurableIngest: true, SyncPct: 30,
+	W: map[string]int{"write": 30, "batch": 10, "flush": 16, "compact": 10, "wait": 4, "ingest": 10, "ingestexcise": 4, "excise": 3, "restart": 2},
+	OpW: opWDefault,
+	CrashGen: func(t *rapid.T, o OptPlan) *CrashPlan {
+		return &CrashPlan{Stride: 0, Hot: 1, Surv: []int{0, 1, rapid.IntRange(2, 1000).Draw(t, "csalt")}, MaxImages: 600}
+	},
+	Opt: func(t *rapid.T, o *OptPlan) {
+		o.MaxManifest = rapid.SampledFrom([]int64{1, 1, 300, 4096}).Draw(t, "c22maxman")
+		o.MemTableSize = 32 << 10
+		o.DisableWAL = false
+	},
+}
+
+func TestC22(t *testing.T) {
+	crashCheck(t, "C22", profManifest,
+		"plans dense in version updates (flush, manual compaction, ingest, ingest-and-excise, excise) with tiny MaxManifestFileSize (a MANIFEST rotation on most edits); a crash image is taken before EVERY file-system operation on a MANIFEST, marker, OPTIONS or WAL-control file and before every rename/remove/link/directory sync, for survival subsets {none, all, random}; each image must reopen (the marker resolves to a complete MANIFEST) and its contents must equal a permitted model version: the version before or after the in-flight update, and at least the last acknowledged one. "+
+			"non-trivial = images were taken on manifest/marker operations after a MANIFEST rotation with an acknowledged structural update; distinct = hash of plan JSON",
+		40, 250,
+		func(res Result, ls []string) bool {
+			return res.C["crash-class-manifest"] > 0 && res.C["crash-class-marker"] > 0 && hasLabel(ls, "manifest-rotated") && res.C["crash-images-after-durable-ack"] > 0
+		})
+}
+
+var profRatchet = Profile{
+	Name: "ratchet", MinSteps: 8, MaxSteps: 28, DurableIngest: true, SyncPct: 40,
+	W: map[string]int{"write": 34, "batch": 10, "flush": 8, "compact": 3, "wait": 2, "ingest": 3, "restart": 3, "ratchet": 10, "get": 4, "scan": 3},
+	OpW: opWDefault, CrashGen: crashGen(5),
+	Opt: func(t *rapid.T, o *OptPlan) {
+		o.FMV = rapid.IntRange(int(pebble.FormatMinSupported), int(pebble.FormatNewest)-1).Draw(t, "c40fmv")
+		o.ValSep = false
+		o.DisableWAL = false
+	},
+}
+
+func TestC40(t *testing.T) {
+	crashCheck(t, "C40", profRatchet,
+		"for a drawn starting format major version the DB is filled using only features of that version, RatchetFormatMajorVersion is called with drawn targets (lower: must fail and change nothing; equal; single and multi step) with crash images inside and after the ratchet, followed by reads and writes that use newly enabled features; every image must reopen with a version in [last acknowledged, in-flight target] and contents equal to a permitted model version; after return FormatMajorVersion() >= target. "+
+			"non-trivial = a ratchet crossed a version with a real migration step with data present and images were taken; distinct = hash of plan JSON",
+		60, 400,
+		func(res Result, ls []string) bool {
+			return res.C["ratchets"] > 0 && res.C["crash-images"] > 0 && (hasLabel(ls, "ratchet-crosses=1") || hasLabel(ls, "ratchet-crosses=2") || hasLabel(ls, "ratchet-crosses=3") || hasLabel(ls, "ratchet-crosses=4"))
+		})
+}
+
+var profCheckpoint = Profile{
+	Name: "checkpoint", MinSteps: 8, MaxSteps: 35, SyncPct: 25,
+	// A checkpoint keeps its WALs inside its own directory; a store configured
+	// with a separate WALDir records that path in OPTIONS and the checkpoint
+	// cannot be opened without pointing WALRecoveryDirs at the source's live WAL
+	// directory. Stores without a separate WALDir are checked.
+	Opt: func(t *rapid.T, o *OptPlan) { o.WALDir = false },
+	W: map[string]int{"write": 40, "batch": 12, "flush": 6, "compact": 3, "wait": 3, "restart": 1, "checkpoint": 10, "get": 3},
+	OpW: opWDefault,
+}
+
+func TestC38(t *testing.T) {
+	dbCheck(t, "C38", profCheckpoint,
+		"Sync/NoSync histories with Checkpoint at drawn points, with/without WithFlushedWAL and WithRestrictToSpans; each checkpoint is opened as its own DB and its full state (restricted to the spans, if any) must equal model[k] for some k in [durable, latest], where durable counts synced commits, flushes and (with WithFlushedWAL) everything before the call; the source keeps running and is compared with the model as in C01. "+
+			"non-trivial = a checkpoint was taken while un-durable commits existed or with restricted spans; distinct = hash of plan JSON",
+		150, 1000,
+		func(res Result, ls []string) bool {
+			return res.C["checkpoints-with-undurable-tail"] > 0 || res.C["checkpoints-restricted"] > 0
 		}, nil)
 }
